@@ -85,19 +85,8 @@ def match_finding(kf, prop, rec):
 
 
 def native_replay(replay_file):
-    """Run the z3-free native replay under the repository's own interpreter."""
-    py = "/venv/bin/python" if os.path.exists("/venv/bin/python") else sys.executable
-    env = dict(os.environ)
-    env["PYTHONPATH"] = VERIF + os.pathsep + repo_root()
-    try:
-        p = subprocess.run([py, os.path.join(VERIF, "pyvc", "replay_native.py"), replay_file],
-                           capture_output=True, text=True, timeout=300, env=env, cwd=VERIF)
-        last = [l for l in p.stdout.strip().splitlines() if l.startswith("{")]
-        if last:
-            return json.loads(last[-1])
-        return {"reproduced": False, "error": (p.stdout + p.stderr)[-800:]}
-    except Exception as e:  # noqa
-        return {"reproduced": False, "error": repr(e)}
+    from pyvc.unit import native_replay_file
+    return native_replay_file(replay_file)
 
 
 def main(argv=None):
@@ -168,6 +157,11 @@ def main(argv=None):
     backends = {}
     per_unit = []
     assumptions = list(GENERAL_ASSUMPTIONS)
+    # optional invariants (core.Ctx.assume_optional): an invariant is *required* iff some obligation could only be discharged with
+    # it; the obligations establishing a non-required invariant are reported but decide nothing
+    needed = sorted({n for r in results for o in r["obligations"] for n in o.get("needs", [])})
+    provided = {o["provides"] for r in results for o in r["obligations"] if o.get("provides")}
+    optional_report = {"required": needed, "established_by": {}, "not_required_and_not_maintained": []}
     for r in results:
         if r["error"]:
             (undecided if r["error_kind"] == "stale" else engine_errors).append((r["unit"], r["error"]))
@@ -187,6 +181,22 @@ def main(argv=None):
                 nb_obl += 1
             else:
                 n_obl += 1
+            if o.get("provides"):
+                optional_report["established_by"].setdefault(o["provides"], set()).add(o["name"])
+                if o["provides"] not in needed and o["verdict"] != "unsat":
+                    # nothing relies on this invariant in the current tree: its loss is not a violation of the property
+                    if o["name"] not in optional_report["not_required_and_not_maintained"]:
+                        optional_report["not_required_and_not_maintained"].append(o["name"])
+                    if isb:
+                        nb_obl -= 1
+                    else:
+                        n_obl -= 1
+                    continue
+            missing = [n for n in o.get("needs", []) if n not in provided]
+            if missing:
+                undecided.append((r["unit"], f"{o['name']} [{o['path']}]: holds only under the optional invariant {missing}, which no unit "
+                                             "of this check establishes"))
+                continue
             if o["verdict"] == "also-failing":
                 continue        # same named obligation already refuted on another path of this unit (reported once)
             if o["verdict"] == "unsat":
@@ -198,7 +208,7 @@ def main(argv=None):
             elif o["verdict"] == "candidate":
                 # a model of a *weakened* query: a violation only if the native replay reproduces it on the real code
                 ok = False
-                if r.get("replay") and o.get("replay_inputs") is not None:
+                if r.get("replay") and o.get("replay_inputs") is not None and "candidate_replayed" not in o:
                     os.makedirs(os.path.join(VERIF, "replays"), exist_ok=True)
                     tmp = os.path.join(VERIF, "replays", f"candidate_{prop}_{os.getpid()}.json")
                     with open(tmp, "w") as fh:
@@ -264,6 +274,8 @@ def main(argv=None):
         print(f"# failed obligation {o['name']} on path [{o['path']}] of unit {r['unit']}" + (f" ({o['note'][:300]})" if o.get("note") else ""))
         print(line)
         exit_code = 1
+    for nm in optional_report["not_required_and_not_maintained"]:
+        print(f"# note: optional invariant obligation {nm} does not hold, and no obligation of this check relies on the invariant")
     if engine_errors:
         for u, e in engine_errors:
             print(f"# ENGINE {u}: {e}", file=sys.stderr)
@@ -286,6 +298,9 @@ def main(argv=None):
         "paths_explored": sum(r["paths"] for r in results),
         "solver_s": round(sum(r["solver_s"] for r in results), 3),
         "known_findings": [f.get("what") for _, f, _ in known],
+        "optional_invariants": {"required": optional_report["required"],
+                                "established_by": {k: sorted(v) for k, v in optional_report["established_by"].items()},
+                                "not_required_and_not_maintained": optional_report["not_required_and_not_maintained"]},
         "undecided": [f"{u}: {e}"[:300] for u, e in undecided], "engine_errors": [f"{u}: {e}"[:300] for u, e in engine_errors],
         "samples": samples[:12] or [{"note": "no obligations"}],
         "explanation": "contract-based deductive verification: real function bodies executed on symbolic proxies, "
